@@ -47,6 +47,7 @@ def gen_case(rng, tier):
         data_seed=rng.randrange(1 << 30),
     )
     case["center"] = rng.random() < 0.5
+    case["collide"] = rng.random() < 0.5
     if ncoll > 1 and rng.random() < 0.3:
         # some collections with a prefix of their own, the others sharing the un-prefixed files
         mask = [rng.random() < 0.5 for _ in range(ncoll)]
@@ -76,6 +77,14 @@ def build_tables(case):
             rowid=False,
         )
         df["SpecId"] = [f"c{k}_{i}" for i in range(len(df))]
+        if case.get("collide") and tuple(case["optional"]) == ("ExpMass",):
+            # distinct spectra whose key columns agree once written next to each other without a separator
+            # ((1, 11.0) / (11, 1.0), (12, 345.5) / (123, 45.5), ...): they must still compete separately
+            pairs = [(1, 11.0), (11, 1.0), (12, 345.5), (123, 45.5), (2, 21.25), (22, 1.25), (1, 1.0), (11, 11.0)]
+            scans = sorted(set(df["ScanNr"]))
+            remap = {sc: pairs[i] for i, sc in enumerate(scans) if i < len(pairs)}
+            df["ExpMass"] = [remap[sc][1] if sc in remap else float(m) for sc, m in zip(df["ScanNr"], df["ExpMass"])]
+            df["ScanNr"] = [remap[sc][0] if sc in remap else sc for sc in df["ScanNr"]]
         if case.get("tie_mode") == "cross":
             # ties only ACROSS spectra: 8 * (coarse value) + position of the row inside its spectrum
             pos, cnt = [], {}
